@@ -169,8 +169,8 @@ def item_requirements(A, prog, label, paths, okp, sig_of, is_pay, item_of):
     A.no_panic(label + '/no-panic', paths, replay=REPLAY)
 
 
-def run(ctx, prog):
-    A = Auditor(ctx, prog)
+def run(ctx, prog, only=None):
+    A = Auditor(ctx, prog, only=only)
     S = lambda name: fidx(prog, 'JwsSignature', name)   # noqa
     I = lambda name: fidx(prog, 'JwsValidationItem', name)   # noqa
 
@@ -412,6 +412,32 @@ def run(ctx, prog):
         return None
     A.require('verify/verifier-gets-item-bytes-protected-alg-caller-key', okv, r_verify, replay=REPLAY)
     A.no_panic('verify/no-panic', paths, replay=REPLAY)
+
+    # -------------------------------------------------------------------------------- item accessors used by the verifiers
+    # nonce / kid / alg are exactly what the *protected* header carries (nothing filtered, nothing taken from elsewhere)
+    for acc in ('nonce', 'kid', 'alg'):
+        f = prog.one(r'decoder::<impl at [^>]*>::%s$' % acc, sig=r'^&(\w+::)*JwsValidationItem')
+        paths, ex = A.paths(f, inline=r'decoder::<impl at [^>]*>::%s::\{closure#\d+\}$' % acc)
+
+        def r_acc(p, acc=acc):
+            if p.kind != 'return':
+                return 'panic ' + p.msg
+            ph = [c for c in p.find_calls(r'(JwsValidationItem|DecodedHeaders)::protected_header$') if mentions(c.args, r'^self$')]
+            if not ph:
+                return 'protected header not consulted'
+            if p.took(ph[0], 'None'):
+                return None if isinstance(p.val, VAgg) and p.val.variant == 'None' else 'value reported without a protected header'
+            t = strip(p.term())
+            ok = isinstance(t, tuple) and t and t[0] == 'app' and re.search(r'(JwsHeader|JwtHeader)::%s$' % acc, t[1]) and is_sub(t[2][0], ('field', ph[0].ret, 0, 'Some'))
+            return None if ok else '%s() is not the protected header\'s %s as it stands: %s' % (acc, acc, term_str(t)[:140])
+        A.require('JwsValidationItem::%s/is-the-protected-headers-value' % acc, paths, r_acc, replay={'scenario': 'jws_binding'})
+
+    f = prog.one(r'decoder::<impl at [^>]*>::protected_header$', sig=r'^&(\w+::)*JwsValidationItem')
+    paths, ex = A.paths(f)
+    A.require('JwsValidationItem::protected_header/is-the-decoded-protected-header', paths,
+              lambda p: None if (p.kind == 'return' and strip(p.term())[0] == 'app' and re.search(r'DecodedHeaders::protected_header$', strip(p.term())[1])
+                                 and field_path(strip(p.term())[2][0]) == ('self', [('', I('headers'))])) else 'not self.headers.protected_header()',
+              replay={'scenario': 'jws_binding'})
 
     # --------------------------------------------------------------------------- DecodedHeaders::new + accessors (kernel)
     f_new = prog.one(r'decoder::<impl at [^>]*>::new$', sig=r'JwsHeader>.*JwsHeader>.* -> .*DecodedHeaders')
